@@ -26,6 +26,7 @@ and of the quotient (Proofs/MinQuotient.lean) are combined in Proofs/MinifyCorre
 -/
 import AutomataVerif.Proofs.MinifyExpand
 import AutomataVerif.Model.Convert
+import AutomataVerif.Proofs.MinGlueSubset
 
 namespace AV.Props.C05
 open AV AV.DFA
@@ -304,7 +305,8 @@ theorem C05_binopMin (op : BinOp) (A B : AV.DFA σ α) (hA : A.validate = .ok ()
 
 /-- The full claim for `DFA.from_nfa(n, minify=True)`: for every valid NFA of Python shape the
 result is minimal of its kind for the language of `DFA.from_nfa(n, minify=False)`.  Proved
-below up to the exhaustiveness of the subset construction's BFS, which belongs to C07. -/
+below: first up to the exhaustiveness of the subset construction's BFS (`C05_toDFAMin_partial`),
+which belongs to C07, then with C07's proof of it (`C05_toDFAMin`, `C05_toDFAMin_full_holds`). -/
 def C05_toDFAMin_full (σ α : Type) [DecidableEq σ] [DecidableEq α] : Prop :=
   ∀ (n : AV.NFA σ α), n.validate = .ok () → n.PyShape → ∀ pick : List Nat → Nat,
     MinimalFor (n.toDFAMin pick) n.toDFA.accepts n.syms
@@ -318,6 +320,27 @@ theorem C05_toDFAMin_partial (n : AV.NFA σ α) (univ : List (List σ))
     (pick : List Nat → Nat) :
     MinimalFor (n.toDFAMin pick) n.toDFA.accepts n.syms :=
   minimalFor_of_source (expand_minSource n.subsetFinal n.syms h hsyms hkeys) pick
+
+/-- **`DFA.from_nfa(n, minify=True)`, unconditionally.**  For every valid NFA of Python shape
+and every pop order, the result is a valid DFA, minimal of its kind for the language of
+`DFA.from_nfa(n, minify=False)`.  The exhaustiveness of the subset construction's BFS is
+C07's `subset_expandHyp` (universe: all sublists of `n.states`, `2 ^ |states|` of them). -/
+theorem C05_toDFAMin (n : AV.NFA σ α) (hv : n.validate = .ok ()) (ps : n.PyShape)
+    (pick : List Nat → Nat) : MinimalFor (n.toDFAMin pick) n.toDFA.accepts n.syms :=
+  C05_toDFAMin_partial n (AV.C07.powerset n.states) (AV.C07.subset_expandHyp n _) ps.syms_nodup
+    (fun u _ => AV.C07.subsetSucc_keys_sub ((NFA.validate_eq_ok n).mp hv) u) pick
+
+theorem C05_toDFAMin_full_holds (σ α : Type) [DecidableEq σ] [DecidableEq α] :
+    C05_toDFAMin_full σ α :=
+  fun n hv ps pick => C05_toDFAMin n hv ps pick
+
+/-- The same with the language named directly: `DFA.from_nfa(n, minify=True)` is minimal of
+its kind for the language of the NFA `n` (C07: the subset DFA has the language of `n`). -/
+theorem C05_toDFAMin_nfa (n : AV.NFA σ α) (hv : n.validate = .ok ()) (ps : n.PyShape)
+    (pick : List Nat → Nat) : MinimalFor (n.toDFAMin pick) n.accepts n.syms := by
+  have h : n.toDFA.accepts = n.accepts :=
+    funext fun w => AV.C07.toDFA_accepts ((NFA.validate_eq_ok n).mp hv) ps w
+  rw [← h]; exact C05_toDFAMin n hv ps pick
 
 /-! ## Non-vacuity -/
 
@@ -380,6 +403,8 @@ def exNFA : AV.NFA Nat Nat :=
 
 example : exNFA.validate = .ok () := rfl
 example : exNFA.toDFA.states.length = 2 ∧ (exNFA.toDFAMin).states.length = 1 := by decide
+example : MinimalFor (exNFA.toDFAMin) exNFA.accepts exNFA.syms :=
+  C05_toDFAMin_nfa exNFA rfl ⟨by decide, by decide, by decide, by decide, by decide, by decide⟩ _
 
 /-- `PyShape` cannot be dropped in the list model: a row with a duplicate key (impossible for
 a Python dict) is read by `.get` at its first entry but copied entry by entry by `_minify`. -/
